@@ -13,6 +13,7 @@ import (
 func init() {
 	VerifHarnesses["H_C09_stream_vs_buffer"] = H_C09_stream_vs_buffer
 	VerifHarnesses["H_C09_stream_ints"] = H_C09_stream_ints
+	VerifHarnesses["H_C09_stream_templates"] = H_C09_stream_templates
 }
 
 // vChunkReader hands out the document in an arbitrary chunking: each Read
@@ -57,7 +58,7 @@ type vdS struct {
 }
 
 func VerifSetup() {
-	for _, v := range []interface{}{new(int64), new(string), new(bool), new(vdS), new(uint8), new(int8), new(int16), new(int32), new(uint16), new(uint32), new(uint64), new([]int), new(map[string]int), new(vdDeep), new([2]int), new([]interface{})} {
+	for _, v := range []interface{}{new(int64), new(string), new(bool), new(vdS), new(uint8), new(int8), new(int16), new(int32), new(uint16), new(uint32), new(uint64), new(vdW), new([]int), new(map[string]int), new(vdDeep), new([2]int), new([]interface{})} {
 		CompileToGetDecoder(vTypeOf(v))
 	}
 }
@@ -179,4 +180,67 @@ func H_C09_stream_ints(t *verifrt.T) {
 		t.Assert("same-value", bv == sv)
 	}
 	t.Cover("both-accept", verifrt.And(okB, okS))
+}
+
+type vdW struct {
+	A int    `json:"a"`
+	B string `json:"b"`
+	C bool   `json:"c"`
+	N *int   `json:"n"`
+}
+
+// document templates: '#' = a symbolic digit 1-9, '?' = a symbolic lower-case letter
+var c09Templates = []string{
+	`{"a":#,"b":"?\n?","c":true}`,
+	`{ "x" : "s\"t" , "a" : -# , "n" : null }`,
+	`{"zz":[1,{"y":"}"}], "b" : "\ud83d\nde0#" ,"c":false} `,
+	` {"b":"\ud83d\ude0#","x":{"k":"v\\"},"a":#}`,
+	`{"c"` + "\n" + `:` + "\t" + `false ,"a" : #` + "\r" + `}`,
+}
+
+// Longer, realistic documents (whitespace in every legal place, unknown members
+// with nested values and escapes, surrogate escapes, null/bool/negative numbers)
+// with symbolic digits/letters and EVERY chunking with up to R free boundaries:
+// the stream decoder must produce the buffer decoder's result.
+func H_C09_stream_templates(t *verifrt.T) {
+	tpl := c09Templates[t.Choice("template", len(c09Templates))]
+	data := make([]byte, len(tpl))
+	for i := 0; i < len(tpl); i++ {
+		switch tpl[i] {
+		case '#':
+			d := t.Byte("digit")
+			t.Assume(verifrt.And(d >= '1', d <= '9'))
+			data[i] = d
+		case '?':
+			c := t.Byte("letter")
+			t.Assume(verifrt.And(c >= 'a', c <= 'z'))
+			data[i] = c
+		default:
+			data[i] = tpl[i]
+		}
+	}
+	n := len(data)
+	dec, err := CompileToGetDecoder(vTypeOf(new(vdW)))
+	t.Assume(err == nil)
+	var bv, sv vdW
+	buf := make([]byte, n+1)
+	copy(buf, data)
+	cur, errB := dec.Decode(&RuntimeContext{Buf: buf, Option: &Option{}}, 0, 0, unsafe.Pointer(&bv))
+	okB := errB == nil && vEndOK(buf, cur)
+	bsz := int64(t.Param("BS"))
+	s := &Stream{r: &vChunkReader{t: t, data: data, max: t.Param("R")}, bufSize: bsz, buf: make([]byte, bsz), Option: &Option{}}
+	okS := false
+	if s.PrepareForDecode() == nil {
+		if dec.DecodeStream(s, 0, unsafe.Pointer(&sv)) == nil {
+			s.Reset()
+			okS = s.PrepareForDecode() == io.EOF
+		}
+	}
+	t.ObserveBool("buffer", okB)
+	t.ObserveBool("stream", okS)
+	t.Assert("valid-template-accepted-by-buffer-decoder", okB)
+	t.Assert("same-verdict", okB == okS)
+	if okB && okS {
+		t.Assert("same-value", verifrt.And(bv.A == sv.A, bv.B == sv.B, bv.C == sv.C, (bv.N == nil) == (sv.N == nil)))
+	}
 }
